@@ -106,6 +106,7 @@ type pConfig struct {
 	EnumValidator   bool       `json:"generateEnumValidator,omitempty"`    // experimentalConfig.generateEnumValidator
 	TopLevelEnum    bool       `json:"validateTopLevelOnlyEnum,omitempty"` // experimentalConfig.validateTopLevelOnlyEnum
 	ValidateResp    bool       `json:"validateResponsePayload,omitempty"`  // routesConfig.validateResponsePayload
+	AllowLoadFailures bool     `json:"allowPackageLoadFailures,omitempty"` // commonConfig.allowPackageLoadFailures, plus a file of package ctl that does not load
 }
 
 type pProject struct {
@@ -327,6 +328,12 @@ func writeProject(p pProject, dir string) (map[string]string, error) {
 			mf.decls = append(mf.decls, mb.String())
 		}
 	}
+	if p.Config.AllowLoadFailures {
+		// a file of the controllers' package that imports code which does not exist yet (the documented use of the
+		// flag: the generated routes package before the first generation)
+		wf := get("ctl", "wiring.go")
+		wf.decls = append(wf.decls, "import _ \"vproj/dist/notyet\"\n")
+	}
 	texts := map[string]string{}
 	for k, fb := range files {
 		body := strings.Join(fb.decls, "\n")
@@ -416,7 +423,7 @@ func configText(c pConfig) string {
 		oa["defaultSecurity"] = map[string]any{"name": c.DefaultSecurity.Name, "scopes": sc}
 	}
 	cfg := map[string]any{
-		"commonConfig": map[string]any{"controllerGlobs": globs},
+		"commonConfig": map[string]any{"controllerGlobs": globs, "allowPackageLoadFailures": c.AllowLoadFailures},
 		"routesConfig": map[string]any{"engine": c.Engine, "outputPath": "./dist/routes/gleece.go", "outputFilePerms": "0644", "packageName": c.PackageName,
 			"skipGenerateDateComment": true,
 			"authorizationConfig":     map[string]any{"authFileFullPackageName": projModule + "/auth", "enforceSecurityOnAllRoutes": c.Enforce}},
@@ -754,8 +761,16 @@ func runProject(p pProject) (out projOut) {
 	ir := fromDefinitions(cfg, meta, p.Engines)
 	out.IR = &ir
 	// C19: repeated analysis on the same pipeline
+	// nodes AND edges: every node of every kind, plus the outgoing edges each of them has (a re-analysis must neither
+	// grow nor shrink the graph: a controller keeps its routes, a struct its fields)
 	countNodes := func() int {
-		return len(pipe.Graph().FindByKind(allNodeKinds...)) + len(pipe.Graph().FindByKind(common.SymKindParameter, common.SymKindReturnType, common.SymKindComposite, common.SymKindTypeParam))
+		g := pipe.Graph()
+		nodes := append(g.FindByKind(allNodeKinds...), g.FindByKind(common.SymKindParameter, common.SymKindReturnType, common.SymKindComposite, common.SymKindTypeParam)...)
+		n := len(nodes)
+		for _, nd := range nodes {
+			n += 1000 * len(g.Children(nd, nil))
+		}
+		return n
 	}
 	if p.Repeat > 0 {
 		out.Counts = append(out.Counts, countNodes())
